@@ -18,6 +18,8 @@ _here = os.path.dirname(os.path.abspath(__file__))
 if _here not in sys.path:
     sys.path.insert(0, _here)
 
+import warnings
+warnings.filterwarnings("ignore", message="coroutine .* was never awaited")
 import gqlstub  # noqa: E402  (installs the stand-in for libgraphqlparser before tartiflette is imported)
 
 _counter = itertools.count()
